@@ -46,6 +46,16 @@ class Prop(PropBase):
             lines = [f'S c06_nullstop_{t}_{k}', cfg.line(0, l), 'A 0 ' + ' '.join(str(a) for a in ans), 'WD 30', 'LC 0 1', 'LI 0', 'LS 0']
             lines += [f'LP 0 {p.hex()}' for p in pk[:3]] + [f'SL {rng.choice([20, 60])}', 'LX 0', 'LS 0'] + [f'LP 0 {p.hex()}' for p in pk[3:]] + ['LW 0', 'LX 0', 'LD 0', 'E']
             ns.append('\n'.join(lines))
+        # stop() while the put callback is still running (a slow consumer): the cloud handed over belongs to the caller - it must
+        # keep its points and shape - and what the decoding thread appends afterwards must not survive into the next session
+        for k in range(2 if tier == 'quick' else 8):
+            t = ['RSM1', 'RS16', 'RSHELIOS', 'RSM2'][k % 4]
+            l = self.L[t]
+            cfg = pktgen.Cfg(wait=0, dense=rng.randrange(2), pktcb=0, lclock=1, mode=3, nblk=3)
+            pk = [scen.MechStream(rng, l).msop() for _ in range(6)] if l.mech else [scen.mems_msop(rng, l, q) for q in (1, 2, 3, 1, 2, 3, 1)]
+            lines = [f'S c06_slowput_{t}_{k}', cfg.line(0, l), 'A 0 1 2 1 2 1 2 1 2 1 2 1 2 1 2 1 2 1 2 1 2 1 2 1 2 1 2 1 2', 'WD 30', 'PS 0 250', 'LC 0 1', 'LI 0', 'LS 0']
+            lines += [f'LP 0 {p.hex()}' for p in pk[:4]] + ['SL 60', 'LX 0', 'PS 0 0', 'LS 0'] + [f'LP 0 {p.hex()}' for p in pk[3:]] + ['LW 0', 'LX 0', 'LD 0', 'E']
+            ns.append('\n'.join(lines))
         return [('hist', '\n'.join(scn_all) + '\n'), ('nullstop', '\n'.join(ns) + '\n')]
 
     projection_threads = {'kinds': {'crash', 'hang', 'nodrv'}}
@@ -61,6 +71,10 @@ class Prop(PropBase):
 
     def oracle(self, name, impl, model, scn):
         errs = []
+        mod = [l for l in impl if l.startswith('cloudmod')]
+        if mod:
+            t = mod[0].split()
+            errs.append(('cloud-modified', f'cloud seq {t[2]} had {t[3]} points when it was handed to the put callback and {t[4]} before the callback returned: the driver changed a cloud it no longer owns'))
         hung = [l for l in impl if l.startswith('hang')]
         if hung:
             errs.append(('hang', f'a call did not return: {hung[0][5:]}'))
